@@ -215,6 +215,7 @@ def drive : List String → String
       let parse (a : String) : Option BridgeAct :=
         if a == "start" || a == "enter" then some .start else if a == "stop" || a == "leave" then some .stop
         else if a == "ostop" || a == "ostart" then some .foreign      -- another bridge object acts: nothing changes for this one
+        else if a == "newloop" then some .foreign                      -- the (stopped) bridge is carried over to another event loop
         else match a.splitOn ":" with
           | ["send", i] => i.toNat?.map .send
           | ["occ", i] => i.toNat?.map .occupy
@@ -231,7 +232,7 @@ def drive : List String → String
     | none => "bad-arg"
   | "clife" :: acts =>
     let parse (a : String) : Option ClientAct :=
-      if a == "cok" then some .connectOk else if a == "cref" || a == "crefs" || a == "withref" then some .connectRefused
+      if a == "cok" then some .connectOk else if a == "cref" || a == "crefs" || a == "withref" || a == "ccancel" then some .connectRefused
       else if a == "withop" then some (.withBody false) else if a == "op" then some .opOk
       else if a == "opx" || a == "opeof" then some .opRaises else if a == "disc" then some .disconnect else if a == "with" then some (.withBody false)
       else if a.startsWith "withx" then some (.withBody true)
